@@ -56,7 +56,7 @@ class C06(GProp):
 
     def oracle(self, ct, it):
         c = pfields(ct)
-        ref = peg.reference(c['text'], c['le'], c['tab'], c['scanner'], c['filter'], c['g'])
+        ref = peg.reference(c['text'], c['le'], c['tab'], c['scanner'], c['filter'], c['g'], sink=c['sink'])[0]
         if ref[0] == 'notcovered':
             return []
         kind, v, lx = run_result(it[1])
